@@ -161,25 +161,25 @@ def Good {α : Type} (P : α → Prop) (r : DRes α) : Prop :=
   | _ => True
 
 theorem decoder_bigok (R : Registry) (gz : Bytes → Option Bytes) : ∀ (fuel : Nat),
-    (∀ ty bs hs, Good BigOK (decVal R gz fuel ty bs hs)) ∧
-    (∀ e bs hs, Good BigOK (decVecBody R gz fuel e bs hs)) ∧
-    (∀ e n bs hs, Good BigOKL (decItems R gz fuel e n bs hs)) ∧
-    (∀ d bs hs, Good BigOK (decStruct R gz fuel d bs hs)) ∧
-    (∀ k w fs bs hs, Good BigOKL (decFields R gz fuel k w fs bs hs)) ∧
-    (∀ bs hs, Good BigOK (decRegistered R gz fuel bs hs))
+    (∀ dp ty bs hs, Good BigOK (decVal R gz dp fuel ty bs hs)) ∧
+    (∀ dp e bs hs, Good BigOK (decVecBody R gz dp fuel e bs hs)) ∧
+    (∀ dp e n bs hs, Good BigOKL (decItems R gz dp fuel e n bs hs)) ∧
+    (∀ dp d bs hs, Good BigOK (decStruct R gz dp fuel d bs hs)) ∧
+    (∀ dp k w fs bs hs, Good BigOKL (decFields R gz dp fuel k w fs bs hs)) ∧
+    (∀ dp bs hs, Good BigOK (decRegistered R gz dp fuel bs hs))
   | 0 => by
     refine ⟨?_, ?_, ?_, ?_, ?_, ?_⟩
-    · intro ty bs hs; simp [decVal, Good]
-    · intro e bs hs; simp [decVecBody, Good]
-    · intro e n bs hs; cases n <;> simp [decItems, Good, BigOKL]
-    · intro d bs hs; simp [decStruct, Good]
-    · intro k w fs bs hs; cases fs <;> simp [decFields, Good, BigOKL]
-    · intro bs hs; simp [decRegistered, Good]
+    · intro dp ty bs hs; simp [decVal, Good]
+    · intro dp e bs hs; simp [decVecBody, Good]
+    · intro dp e n bs hs; cases n <;> simp [decItems, Good, BigOKL]
+    · intro dp d bs hs; simp [decStruct, Good]
+    · intro dp k w fs bs hs; cases fs <;> simp [decFields, Good, BigOKL]
+    · intro dp bs hs; simp [decRegistered, Good]
   | fuel + 1 => by
     obtain ⟨ihVal, ihVec, ihItems, ihStruct, ihFields, ihReg⟩ := decoder_bigok R gz fuel
     refine ⟨?_, ?_, ?_, ?_, ?_, ?_⟩
     · -- decVal
-      intro ty bs hs
+      intro dp ty bs hs
       cases ty with
       | int32 => simp only [decVal]; split <;> simp [Good, BigOK]
       | uint32 => simp only [decVal]; split <;> simp [Good, BigOK]
@@ -232,7 +232,7 @@ theorem decoder_bigok (R : Registry) (gz : Bytes → Option Bytes) : ∀ (fuel :
           simp only
           split
           · simp [Good]
-          · exact ihVec _ _ _
+          · exact ihVec dp _ _ _
       | ptr id =>
         simp only [decVal]
         cases R.find id with
@@ -250,14 +250,14 @@ theorem decoder_bigok (R : Registry) (gz : Bytes → Option Bytes) : ∀ (fuel :
               simp only
               split
               · simp [Good]
-              · exact ihStruct _ _ _
+              · exact ihStruct dp _ _ _
           | enum => simp [Good]
           | container => simp [Good]
           | gzip => simp [Good]
       | iface nm =>
         simp only [decVal]
-        have := ihReg bs hs
-        cases h : decRegistered R gz fuel bs hs with
+        have := ihReg dp bs hs
+        cases h : decRegistered R gz dp fuel bs hs with
         | err _ => simp [Good]
         | panic _ => simp [Good]
         | ok p =>
@@ -268,7 +268,7 @@ theorem decoder_bigok (R : Registry) (gz : Bytes → Option Bytes) : ∀ (fuel :
           · exact this
           · simp [Good]
     · -- decVecBody
-      intro e bs hs
+      intro dp e bs hs
       simp only [decVecBody]
       cases h : popUint bs with
       | err _ => simp [Good]
@@ -278,8 +278,8 @@ theorem decoder_bigok (R : Registry) (gz : Bytes → Option Bytes) : ∀ (fuel :
         simp only
         split
         · simp [Good]
-        · have := ihItems e n r hs
-          cases h2 : decItems R gz fuel e n r hs with
+        · have := ihItems dp e n r hs
+          cases h2 : decItems R gz dp fuel e n r hs with
           | err _ => simp [Good]
           | panic _ => simp [Good]
           | ok q =>
@@ -287,21 +287,21 @@ theorem decoder_bigok (R : Registry) (gz : Bytes → Option Bytes) : ∀ (fuel :
             rw [h2] at this
             simpa [Good, BigOK] using this
     · -- decItems
-      intro e n bs hs
+      intro dp e n bs hs
       cases n with
       | zero => simp [decItems, Good, BigOKL]
       | succ n =>
         simp only [decItems]
-        have h1 := ihVal e bs hs
-        cases hv : decVal R gz fuel e bs hs with
+        have h1 := ihVal dp e bs hs
+        cases hv : decVal R gz dp fuel e bs hs with
         | err _ => simp [Good]
         | panic _ => simp [Good]
         | ok p =>
           obtain ⟨v, r, hs'⟩ := p
           rw [hv] at h1
           simp only
-          have h2 := ihItems e n r hs'
-          cases hi : decItems R gz fuel e n r hs' with
+          have h2 := ihItems dp e n r hs'
+          cases hi : decItems R gz dp fuel e n r hs' with
           | err _ => simp [Good]
           | panic _ => simp [Good]
           | ok q =>
@@ -309,12 +309,12 @@ theorem decoder_bigok (R : Registry) (gz : Bytes → Option Bytes) : ∀ (fuel :
             rw [hi] at h2
             exact ⟨h1, h2⟩
     · -- decStruct
-      intro d bs hs
+      intro dp d bs hs
       simp only [decStruct]
       split
       · simp [Good]
-      · have := ihFields d.flagIndex 0 d.fields bs hs
-        cases h : decFields R gz fuel d.flagIndex 0 d.fields bs hs with
+      · have := ihFields dp d.flagIndex 0 d.fields bs hs
+        cases h : decFields R gz dp fuel d.flagIndex 0 d.fields bs hs with
         | err _ => simp [Good]
         | panic _ => simp [Good]
         | ok q =>
@@ -322,7 +322,7 @@ theorem decoder_bigok (R : Registry) (gz : Bytes → Option Bytes) : ∀ (fuel :
           rw [h] at this
           exact Or.inr this
     · -- decFields
-      intro k w fs bs hs
+      intro dp k w fs bs hs
       cases fs with
       | nil => simp [decFields, Good, BigOKL]
       | cons f fs =>
@@ -335,26 +335,26 @@ theorem decoder_bigok (R : Registry) (gz : Bytes → Option Bytes) : ∀ (fuel :
           obtain ⟨w', r0⟩ := p
           simp only
           have tailOK : ∀ (bs' : Bytes) (hs' : List Ty) (pre : Val), BigOK pre →
-              Good BigOKL (match decFields R gz fuel (nextK k) w' fs bs' hs' with
+              Good BigOKL (match decFields R gz dp fuel (nextK k) w' fs bs' hs' with
                 | .ok (vs, r, hs'') => (Outcome.ok (pre :: vs, r, hs'') : DRes (List Val))
                 | .err er => .err er
                 | .panic s => .panic s) := by
             intro bs' hs' pre hpre
-            have := ihFields (nextK k) w' fs bs' hs'
-            cases h2 : decFields R gz fuel (nextK k) w' fs bs' hs' with
+            have := ihFields dp (nextK k) w' fs bs' hs'
+            cases h2 : decFields R gz dp fuel (nextK k) w' fs bs' hs' with
             | err _ => simp [Good]
             | panic _ => simp [Good]
             | ok q => obtain ⟨vs, r', hs''⟩ := q; rw [h2] at this; exact ⟨hpre, this⟩
-          have valCase : Good BigOKL (match decVal R gz fuel f.ty r0 hs with
+          have valCase : Good BigOKL (match decVal R gz dp fuel f.ty r0 hs with
               | .err er => (Outcome.err er : DRes (List Val))
               | .panic s => .panic s
               | .ok (v, r, hs') =>
-                match decFields R gz fuel (nextK k) w' fs r hs' with
+                match decFields R gz dp fuel (nextK k) w' fs r hs' with
                 | .ok (vs, r', hs'') => .ok (v :: vs, r', hs'')
                 | .err er => .err er
                 | .panic s => .panic s) := by
-            have h1 := ihVal f.ty r0 hs
-            cases hv : decVal R gz fuel f.ty r0 hs with
+            have h1 := ihVal dp f.ty r0 hs
+            cases hv : decVal R gz dp fuel f.ty r0 hs with
             | err _ => simp [Good]
             | panic _ => simp [Good]
             | ok p =>
@@ -377,7 +377,7 @@ theorem decoder_bigok (R : Registry) (gz : Bytes → Option Bytes) : ∀ (fuel :
               · simp only [h2]
                 exact valCase
     · -- decRegistered
-      intro bs hs
+      intro dp bs hs
       simp only [decRegistered]
       cases h : popUint bs with
       | err _ => simp [Good]
@@ -390,7 +390,7 @@ theorem decoder_bigok (R : Registry) (gz : Bytes → Option Bytes) : ∀ (fuel :
           | nil => simp [Good]
           | cons h0 hs' =>
             cases h0 with
-            | vec e => exact ihVec e r hs'
+            | vec e => exact ihVec dp e r hs'
             | _ => simp [Good]
         · split
           · simp [Good, BigOK, BigOKL]
@@ -400,7 +400,7 @@ theorem decoder_bigok (R : Registry) (gz : Bytes → Option Bytes) : ∀ (fuel :
               simp only
               cases d.kind with
               | enum => simp [Good, BigOK, BigOKL]
-              | struct => exact ihStruct d r hs
+              | struct => exact ihStruct dp d r hs
               | container =>
                 simp only
                 cases h2 : popUint r with
@@ -428,21 +428,23 @@ theorem decoder_bigok (R : Registry) (gz : Bytes → Option Bytes) : ∀ (fuel :
                   | none => simp [Good]
                   | some plain =>
                     simp only
-                    have := ihReg plain hs
-                    cases h3 : decRegistered R gz fuel plain hs with
-                    | err _ => simp [Good]
-                    | panic _ => simp [Good]
-                    | ok q2 =>
-                      obtain ⟨inner, _, _⟩ := q2
-                      rw [h3] at this
-                      exact Or.inr (by simpa [Good, BigOK, BigOKL] using this)
+                    split
+                    · simp [Good]
+                    · have := ihReg (dp + 1) plain hs
+                      cases h3 : decRegistered R gz (dp + 1) fuel plain hs with
+                      | err _ => simp [Good]
+                      | panic _ => simp [Good]
+                      | ok q2 =>
+                        obtain ⟨inner, _, _⟩ := q2
+                        rw [h3] at this
+                        exact Or.inr (by simpa [Good, BigOK, BigOKL] using this)
 
 /-- every value `tl.DecodeUnknownObject` returns has its 128/256-bit integers within their width -/
 theorem decodeUnknown_bigok (R : Registry) (gz : Bytes → Option Bytes) (fuel : Nat) (hints : List Ty)
     (bs : Bytes) (v : Val) (h : decodeUnknown R gz fuel hints bs = .ok v) : BigOK v := by
   unfold decodeUnknown at h
-  have := (decoder_bigok R gz fuel).2.2.2.2.2 bs hints
-  cases h2 : decRegistered R gz fuel bs hints with
+  have := (decoder_bigok R gz fuel).2.2.2.2.2 0 bs hints
+  cases h2 : decRegistered R gz 0 fuel bs hints with
   | err _ => simp [h2] at h
   | panic _ => simp [h2] at h
   | ok q =>
